@@ -5,6 +5,9 @@ import (
 	"encoding/hex"
 	"errors"
 	"fmt"
+	"sort"
+	"strconv"
+	"strings"
 	"sync"
 
 	ds "github.com/ipfs/go-datastore"
@@ -27,9 +30,30 @@ func newPrefixKV(kvStore ds.Batching, prefix string) ds.Batching {
 // BatchQueue implements a persistent queue for transaction batches
 type BatchQueue struct {
 	queue        []coresequencer.Batch
-	maxQueueSize int // maximum number of batches allowed in queue (0 = unlimited)
+	keys         []string // WAL key of each queued batch (parallel to queue)
+	nextSeq      uint64   // sequence number of the next WAL record
+	maxQueueSize int      // maximum number of batches allowed in queue (0 = unlimited)
 	mu           sync.Mutex
 	db           ds.Batching
+}
+
+// walSeqDigits is the fixed width of the sequence number in a WAL key.
+const walSeqDigits = 16
+
+// walKey builds the WAL key of a batch: a fixed-width, monotonically increasing sequence number followed by the
+// content hash. Key order is arrival order, and two batches with identical contents get distinct records.
+func walKey(seq uint64, hash []byte) string {
+	return fmt.Sprintf("%0*x-%s", walSeqDigits, seq, hex.EncodeToString(hash))
+}
+
+// parseWALKey extracts the sequence number from a WAL key. Keys written by earlier versions consist of the content
+// hash only; ok is false for them.
+func parseWALKey(name string) (seq uint64, ok bool) {
+	if len(name) <= walSeqDigits || name[walSeqDigits] != '-' {
+		return 0, false
+	}
+	seq, err := strconv.ParseUint(name[:walSeqDigits], 16, 64)
+	return seq, err == nil
 }
 
 // NewBatchQueue creates a new BatchQueue with the specified maximum size.
@@ -57,7 +81,7 @@ func (bq *BatchQueue) AddBatch(ctx context.Context, batch coresequencer.Batch) e
 	if err != nil {
 		return err
 	}
-	key := hex.EncodeToString(hash)
+	key := walKey(bq.nextSeq, hash)
 
 	pbBatch := &pb.Batch{
 		Txs: batch.Transactions,
@@ -74,7 +98,9 @@ func (bq *BatchQueue) AddBatch(ctx context.Context, batch coresequencer.Batch) e
 	}
 
 	// Then add to in-memory queue
+	bq.nextSeq++
 	bq.queue = append(bq.queue, batch)
+	bq.keys = append(bq.keys, key)
 
 	return nil
 }
@@ -89,16 +115,12 @@ func (bq *BatchQueue) Next(ctx context.Context) (*coresequencer.Batch, error) {
 	}
 
 	batch := bq.queue[0]
+	key := bq.keys[0]
 	bq.queue = bq.queue[1:]
-
-	hash, err := batch.Hash()
-	if err != nil {
-		return &coresequencer.Batch{Transactions: nil}, err
-	}
-	key := hex.EncodeToString(hash)
+	bq.keys = bq.keys[1:]
 
 	// Delete the batch from the WAL since it's been processed
-	err = bq.db.Delete(ctx, ds.NewKey(key))
+	err := bq.db.Delete(ctx, ds.NewKey(key))
 	if err != nil {
 		// Log the error but continue
 		fmt.Printf("Error deleting processed batch: %v\n", err)
@@ -114,6 +136,8 @@ func (bq *BatchQueue) Load(ctx context.Context) error {
 
 	// Clear the current queue
 	bq.queue = make([]coresequencer.Batch, 0)
+	bq.keys = nil
+	bq.nextSeq = 0
 
 	q := query.Query{}
 	results, err := bq.db.Query(ctx, q)
@@ -121,6 +145,14 @@ func (bq *BatchQueue) Load(ctx context.Context) error {
 		return fmt.Errorf("error querying datastore: %w", err)
 	}
 	defer results.Close()
+
+	type walRecord struct {
+		key    string
+		seq    uint64
+		legacy bool
+		batch  coresequencer.Batch
+	}
+	var records []walRecord
 
 	// Load each batch
 	for result := range results.Next() {
@@ -134,7 +166,29 @@ func (bq *BatchQueue) Load(ctx context.Context) error {
 			fmt.Printf("Error decoding batch for key '%s': %v. Skipping entry.\n", result.Key, err)
 			continue
 		}
-		bq.queue = append(bq.queue, coresequencer.Batch{Transactions: pbBatch.Txs})
+		name := strings.TrimPrefix(result.Key, "/")
+		seq, ok := parseWALKey(name)
+		records = append(records, walRecord{key: name, seq: seq, legacy: !ok, batch: coresequencer.Batch{Transactions: pbBatch.Txs}})
+	}
+
+	// Restore arrival order: records written by earlier versions (hash-only keys, arrival order unknown) come first,
+	// then the records in sequence order. Do not rely on the iteration order of the datastore.
+	sort.SliceStable(records, func(i, j int) bool {
+		a, b := records[i], records[j]
+		if a.legacy != b.legacy {
+			return a.legacy
+		}
+		if a.legacy {
+			return a.key < b.key
+		}
+		return a.seq < b.seq
+	})
+	for _, r := range records {
+		bq.queue = append(bq.queue, r.batch)
+		bq.keys = append(bq.keys, r.key)
+		if !r.legacy && r.seq >= bq.nextSeq {
+			bq.nextSeq = r.seq + 1
+		}
 	}
 
 	return nil
